@@ -1,4 +1,5 @@
 import ScnVerif.Model.Arith
+import ScnVerif.Model.Inelastic
 /-!
 # Model of the Q-vector and hkl kernels
 
@@ -81,6 +82,10 @@ def qElementsCast {ρ : Type} (down : α → ρ) (wavelength : α) (incidentBeam
   let e := V3.sub ei ef
   let k := twoPi / wavelength
   ⟨down (k * e.x), down (k * e.y), down (k * e.z)⟩
+
+/-- dtype of `Qx, Qy, Qz`: `float_dtype(wavelength)` — float32 for a float32 wavelength, float64 for every
+other dtype (float64 and the integer dtypes) -/
+def qResultDType (wavelength : Inelastic.DType) : Inelastic.DType := Inelastic.floatDType wavelength
 
 /-- the kernel where the result type is the working type (float64 wavelength; `ℝ`): the cast is the identity -/
 def qElements (wavelength : α) (incidentBeam scatteredBeam : V3 α) : V3 α :=
